@@ -72,6 +72,49 @@ PROPS = {
     },
 }
 
+W = "xandikos.webdav."
+WEB = "xandikos.web."
+HTTP = "http_explore.py"
+_HTTP_BOUND = ("WSGI request histories of <= 5 PUT/DELETE (conditional and unconditional)/restart steps over 5 member names "
+               "(incl. ' ', '%41', '?', '#', ';', '+') x 2 uids, each followed by GET/HEAD-style conditional GET, Depth-1 "
+               "PROPFIND and calendar-multiget; path-traversal grammar of 2-4 segments x 6 methods; refused MKCOL/MKCALENDAR "
+               "bodies (quick: 40 / 60 / 10 cases)")
+
+PROPS["C01"]["functions"] += [WEB + "StoreBasedCollection.create_member", WEB + "StoreBasedCollection.delete_member",
+                              WEB + "XandikosBackend.get_resource", W + "PutMethod.handle", W + "DeleteMethod.handle",
+                              W + "MkcolMethod.handle"]
+PROPS["C02"]["functions"] += [WEB + "StoreBasedCollection.get_etag", WEB + "StoreBasedCollection.iter_differences_since"]
+PROPS["C03"]["functions"] += [W + "PutMethod.handle", W + "DeleteMethod.handle", W + "WSGIRequest.__init__"]
+PROPS["C06"]["functions"] += [WEB + "ObjectResource.set_body", WEB + "StoreBasedCollection.create_member"]
+PROPS["C07"]["functions"] += [WEB + "StoreBasedCollection.iter_differences_since", WEB + "StoreBasedCollection.get_sync_token",
+                              "xandikos.store.git.BareGitStore.get_ctag"]
+PROPS["C08"]["functions"] += [WEB + "StoreBasedCollection.get_ctag", WEB + "StoreBasedCollection.get_sync_token",
+                              WEB + "StoreBasedCollection.get_etag"]
+PROPS["C13"] = {
+    "level": "proof",
+    "functions": [WEB + "XandikosBackend._map_to_file_path", WEB + "XandikosBackend.get_resource",
+                  WEB + "XandikosBackend.create_collection", W + "MkcolMethod.handle",
+                  WEB + "StoreBasedCollection.delete_member"],
+    "assumptions": ["no symbolic links inside the data root", "dulwich and os primitives touch only the path they are given"],
+}
+PROPS["C16"] = {
+    "level": "proof",
+    "functions": [W + "ensure_trailing_slash", W + "create_href", W + "read_href_element", W + "href_to_path",
+                  W + "traverse_resource"],
+}
+PROPS["C17"] = {
+    "level": "other",
+    "functions": [W + "read_href_element", W + "href_to_path", W + "_get_resources_by_hrefs"],
+    "explanation": "Soundness of every multiget answer (right resource for the href, independence from the other hrefs) and "
+                   "the href codec are discharged; 'each distinct href exactly once' is covered only by the bounded HTTP "
+                   "stand-in (DESIGN 6/C17).",
+}
+for _pid in ("C01", "C02", "C03", "C13", "C16", "C17"):
+    for _f in PROPS[_pid]["functions"]:
+        if _f.startswith(W) or "XandikosBackend" in _f:
+            PROPS[_pid].setdefault("replay", {}).setdefault(_f, HTTP)
+            PROPS[_pid].setdefault("standins", {}).setdefault(_f, {"driver": HTTP, "bound": _HTTP_BOUND})
+
 STORE_EXPLORE = "store_explore.py"
 _STORE_BOUND = ("histories of <= 5 store operations (quick: 250 seeded samples per back end; thorough: all of length <= 3) over "
                 "2 names x 2 uids x {no, current, stale etag}, deletes, restarts, on tree-git, bare-git and vdir")
@@ -80,6 +123,13 @@ for _pid, _sp in PROPS.items():
         if _f.startswith("xandikos.store.") or _f.startswith("xandikos.web.ObjectResource") or _f.startswith("xandikos.web.StoreBasedCollection"):
             _sp.setdefault("replay", {}).setdefault(_f, STORE_EXPLORE)
             _sp.setdefault("standins", {}).setdefault(_f, {"driver": STORE_EXPLORE, "bound": _STORE_BOUND})
+
+for _sp in PROPS.values():
+    _seen = []
+    for _f in _sp["functions"]:
+        if _f not in _seen:
+            _seen.append(_f)
+    _sp["functions"] = _seen
 
 WITNESS = {
     # the exception was raised after the body had been read and the collection created
